@@ -93,7 +93,9 @@ func scenario(s *scen) *vsched.Scenario {
 		if s.Paused {
 			go func() { pause.Pause("verif: paused for good") }()
 		}
+		w.Feeders.Add(1)
 		go func() { // feeder: the source's consumer
+			defer w.Feeders.Done()
 			for i, u := range d.Seeds {
 				if err := w.Insert(fmt.Sprintf("seed%d", i), u); err != nil {
 					return // frozen or stopping reactor: the source gives up
